@@ -269,6 +269,8 @@ def run(ctx):
     r = ctx.rng
     i = 0
     _run_reuse(ctx)
+    if ctx.shard[0] == 0:
+        _run_constants(ctx)
     for flags in range(128):
         pdu_type, direction, mode, crc, large, segctrl, segmeta = ((flags >> s) & 1 for s in range(7))
         for idw in C.WIDTHS:
@@ -326,6 +328,24 @@ def run(ctx):
     ok, res = attempt(lambda: _mk_header(dict(pdu_type=0, direction=0, mode=0, crc=0, large=0, data_len=-1, segctrl=0, segmeta=0,
                                               idw=1, seqw=1, src=1, seq=2, dst=3))[0].pack())
     ctx.note("negative data-field length: " + ("encoded " + bytes(res).hex() if ok else "refused with " + type(res).__name__))
+
+
+def _run_constants(ctx):
+    """Octet strings the code under test holds (and well-known markers) as entity ids, sequence numbers and as raw header starts."""
+    from spverif.core.util import harvested_constants
+    r = ctx.rng
+    consts = harvested_constants()
+    ctx.extra["harvested_constants"] = len(consts)
+    for c in consts:
+        for w in (2, 4, 8):
+            v = int.from_bytes((c * 8)[:w], "big")
+            for slot in ("src", "seq", "dst"):
+                f = dict(pdu_type=r.getrandbits(1), direction=r.getrandbits(1), mode=r.getrandbits(1), crc=r.getrandbits(1), large=r.getrandbits(1), data_len=r.getrandbits(16),
+                         segctrl=r.getrandbits(1), segmeta=r.getrandbits(1), idw=w, seqw=w, src=rand_uint(r, 8 * w), seq=rand_uint(r, 8 * w), dst=rand_uint(r, 8 * w))
+                f[slot] = v
+                k_hdr(ctx, **f)
+        k_decode(ctx, (bytes([0x20 | r.getrandbits(5)]) + c + r.randbytes(24))[:28])
+        k_decode(ctx, (c + r.randbytes(24))[:28])
 
 
 def _run_reuse(ctx):
